@@ -98,6 +98,7 @@ ASCII_TEXT = "abcxyzABZ019 .,;:!?()[]=+*-_/>|'\"&@~^`\t"
 ASCII_LIT = "abcxyzABZ019 .,;:!?=+*-_/@~^&"
 
 
+FNX = ["\xe9", "\u65e5\u20ac", "\u0436 \xe9"]  # file-name suffixes that the template's own codec often cannot express
 FUTURE = [["annotations"], ["division", "generator_stop"], ["annotations"]]
 
 
@@ -264,8 +265,9 @@ def expectation(case):
 
 def _short(case):
     raw = bytes.fromhex(case["raw"])
-    return "codec=%s style=%s comment=%r input_encoding=%r output=%r/%s v=%r bytes=%r" % (
-        case["codec"], case["style"], case["comment_enc"], case["ie"], case["oe"], case["errs"], case["v"], raw)
+    return "codec=%s style=%s comment=%r input_encoding=%r output=%r/%s v=%r file-name suffix=%r bytes=%r" % (
+        case["codec"], case["style"], case["comment_enc"], case["ie"], case["oe"], case["errs"], case["v"],
+        case.get("fnx"), raw)
 
 
 def check_case(case, env):
@@ -320,8 +322,10 @@ def check_case(case, env):
             except UnicodeEncodeError:
                 lossy = True
 
-    fn_a = os.path.join(env.d, tag + "_a.html")
-    fn_b = os.path.join(env.d, tag + "_b.html")
+    # (the file name and the URI derived from it are written into the module file as string literals)
+    fnx = case.get("fnx") or ""
+    fn_a = os.path.join(env.d, tag + "_a%s.html" % fnx)
+    fn_b = os.path.join(env.d, tag + "_b%s.html" % fnx)
     for fn in (fn_a, fn_b):
         with open(fn, "wb") as fh:
             fh.write(raw)
@@ -427,7 +431,7 @@ def record(case, res, ev):
     negative = kind == "raise"
     conflict = case["style"] == "conflict" or case.get("neg") == "bom-contradicted"
     nt = bool((case.get("na_kinds", 0) >= 2 and case["codec"] != "utf-8") or conflict)
-    h = core.fp([case["raw"], case["comment_enc"], case["ie"], case["oe"], case["errs"], case["v"], case.get("fi")])
+    h = core.fp([case["raw"], case["comment_enc"], case["ie"], case["oe"], case["errs"], case["v"], case.get("fi"), case.get("fnx")])
     for path in done:
         ev.case(key=(case["codec"], case["style"], path, h), nontrivial=nt,
                 labels=("cell:%s/%s/%s" % (case["codec"], case["style"], path),))
@@ -594,7 +598,7 @@ def segments(codec, ascii_only):
 
 
 def make_case(codec, style, segs, v, oe, errs, comment_enc=None, fmt=0, trail="", term="\n", ie=None, junk=None,
-              neg=None, fi=None):
+              neg=None, fi=None, fnx=None):
     """Assemble the serialisable case. comment_enc / ie are the *spelled* names (None = absent)."""
     cs = real_codec(codec)
     doc = Doc()
@@ -621,7 +625,7 @@ def make_case(codec, style, segs, v, oe, errs, comment_enc=None, fmt=0, trail=""
     return {
         "codec": codec, "style": style, "raw": raw.hex(), "comment_enc": comment_enc, "ie": ie, "oe": oe, "errs": errs,
         "v": v, "expected": expected, "na_kinds": len(doc.na), "kinds": sorted(doc.kinds), "junk": bool(junk),
-        "neg": neg, "fi": fi,
+        "neg": neg, "fi": fi, "fnx": fnx,
     }
 
 
@@ -689,8 +693,9 @@ def case_strategy(codec, style):
                 enc_ = draw(st.sampled_from(mb)).encode(cs)
                 junk = (-1, enc_[:draw(st.integers(1, len(enc_) - 1))].hex())
         fi = draw(st.sampled_from(FUTURE)) if draw(one_in_4) else None
+        fnx = draw(st.sampled_from(FNX)) if draw(one_in_4) else None
         return make_case(codec, style, segs, v, oe, errs, comment_enc=comment_enc, fmt=fmt, trail=trail,
-                         term=term, ie=ie, junk=junk, neg=neg, fi=fi)
+                         term=term, ie=ie, junk=junk, neg=neg, fi=fi, fnx=fnx)
 
     return build()
 
@@ -793,6 +798,7 @@ def sweep_cases(codec, style, quick):
                 v = vs[(i + len(er)) % 2]
                 yield (codec, style, segs, v, oe, er), dict(comment_enc=cenc, fmt=fmt, ie=ie, neg=neg,
                                                             fi=FUTURE[i % len(FUTURE)] if i % 3 == 1 else None,
+                                                            fnx=FNX[i % len(FNX)] if i % 4 == 2 else None,
                                                             term="\r\n" if i % 4 == 0 else "\n",
                                                             trail=s if i % 3 == 0 else "")
     # in every cell: the same body with a multi-byte character cut short by the end of the input must be refused
@@ -835,6 +841,8 @@ def minimise(args, kw, f0, env):
         kw["trail"] = ""
     if kw.get("fi") and still(segs, v, dict(kw, fi=None)):
         kw["fi"] = None
+    if kw.get("fnx") and still(segs, v, dict(kw, fnx=None)):
+        kw["fnx"] = None
     for i, sg in enumerate(segs):
         for j in range(1, len(sg)):
             if not isinstance(sg[j], str) or sg[0] in ("escape", "defescape") or len(sg[j]) <= 1:
